@@ -67,6 +67,9 @@ fn c02_csvdump_file_names_and_slices() {
         cases += 1;
         check(whole.len() == tip as usize + 1, suite, "C02:file_name_carries_start_and_last_height", &format!("tip={} no options", tip),
               &format!("{} rows in blocks-0-{}.csv", whole.len(), tip), &format!("{} rows", tip + 1));
+        let wt = csv_lines(&whole_dir.path().join(format!("transactions-0-{}.csv", tip)));
+        let nt: usize = chain.iter().map(|b| b.txs.len()).sum();
+        check(wt.len() == nt, suite, "C02:every_block_of_the_range_contributes", &format!("tip={} no options, transactions.csv", tip), &format!("{} rows", wt.len()), &format!("{} rows", nt));
         for s in 0..=tip { for e in [None, Some(s + 1), Some(tip + 2)] {
             cases += 1;
             let last = match e { Some(e) if e < tip => e, _ => tip };
@@ -79,6 +82,11 @@ fn c02_csvdump_file_names_and_slices() {
             if !check(od.path().join(&name).exists(), suite, "C02:file_name_carries_start_and_last_height", &inp, &format!("{:?}", names), &name) { continue; }
             let want: Vec<String> = whole[s as usize..=last as usize].to_vec();
             check(rows == want, suite, "C02:range_output_is_slice_of_whole_chain_output", &inp, &format!("{} rows", rows.len()), &format!("{} rows", want.len()));
+            // the transaction rows of the range are those of its blocks, whatever was seen before the range started
+            let trows = csv_lines(&od.path().join(format!("transactions-{}-{}.csv", s, last)));
+            let mut twant: Vec<String> = vec![];
+            for h in s..=last { let b = &chain[h as usize]; for t in &b.txs { twant.push(format!("{};{};{};{}", hex_rev(&t.txid()), hex_rev(&b.hash()), t.version, t.locktime)); } }
+            check(trows == twant, suite, "C02:range_output_is_slice_of_whole_chain_output", &format!("{} transactions.csv", inp), &format!("{} rows", trows.len()), &format!("{} rows", twant.len()));
         } }
     }
     finish(suite, cases);
